@@ -88,6 +88,7 @@ Definition chk_C16 (c o : value) : bool :=
   | VL [VI 1; VB str; VI s] => str_obs_ok str s o
   | VL [VI 5; VB str; VI s] => str_obs_ok str s o
   | VL [VI 6; VB str; VI s] => str_obs_ok str s o
+  | VL [VI 7; VI _; VI _; VI _; VI _] => obs_ok 1 0 (-1) o
   | VL [VI 2; VI f; VI t; VI s; VI s'] => obs_ok f (norm t) s' o
   | VL [VI 3; VB str; VI s; VI s'] => str_obs_ok str s' o
   | VL [VI 4; VI _; VI _; VI _; VI f; VI t; VI s; VI _] => obs_ok f (norm t) (norm s) o     (* what was assigned, nothing of the history *)
